@@ -352,6 +352,12 @@ func (g *Gen) Case() *Case {
 					g.steps = append(g.steps, Step{K: KRecv, N: rapid.IntRange(1, 3).Draw(t, "recvn")})
 				}
 				if i == longAt {
+					if plug {
+						// the reader moves on by an event or two and parks again, so
+						// that what it holds meanwhile (e.g. the first half of a move)
+						// ages while the consumer is away
+						g.steps = append(g.steps, Step{K: KRecv, N: rapid.IntRange(1, 2).Draw(t, "longrecv")})
+					}
 					ms := 1100
 					if os.Getenv("VERIF_TIER") == "thorough" {
 						ms = rapid.SampledFrom([]int{1100, 1600, 2500}).Draw(t, "longms")
